@@ -40,6 +40,7 @@ RULES = ["pushdown_projections", "normalize", "unnest_subqueries", "pushdown_pre
          "eliminate_joins", "eliminate_ctes", "canonicalize", "simplify"]
 
 _POOL = {}
+_GROUPS = {}
 _REFS = {}
 _COLD = {}
 
@@ -167,7 +168,39 @@ def build_pool(seed, tier):
                 calls.append({"op": "rule", "rule": rng.choice(RULES), "sql": s, "read": d, "schema": sch})
             else:
                 calls.append({"op": "lineage", "sql": s, "read": d, "schema": sch, "column": rng.choice(["a", "c", "n", "m", "a1"])})
+    # Focus groups: several calls that all go to ONE component configuration (same generator class + options, same parser
+    # + error level, same tokenizer), drawn from inputs that touch per-instance state. A "focus" history replays a group on
+    # one reused instance, which is what makes forgotten resets observable (second call differs from a fresh instance).
+    groups = []
+    failing_sql = set(q for _, q in corpus.FAILING)
+    stateful = corpus.STATEFUL + [(None, q) for q in corpus.SOFT_KEYWORDS] + corpus.FAILING
+    for _gi in range(14 if tier == "quick" else 60):
+        kind = rng.choice(["generate", "generate", "generate", "parse", "parse", "tokenize", "transpile"])
+        members = []
+        if kind == "generate":
+            w = with_settings(rng.choice(hot_writes))
+            opts = dict(rng.choice(hot_opts + [{"unsupported_level": "RAISE"}, {"unsupported_level": "RAISE"}, {"unsupported_level": "IMMEDIATE"}]))
+            srcs = [x for x in corpus.STATEFUL + corpus.GENERAL if x[1] not in failing_sql]
+            for d, q in rng.sample(corpus.SIGNATURES, 2) + rng.sample(srcs, 6):
+                members.append({"op": "generate", "sql": q, "read": d, "write": w, "opts": opts})
+        elif kind == "parse":
+            rd = rng.choice([None, "bigquery", "snowflake", "duckdb", "postgres", "spark", "oracle", "tsql", "mysql"])
+            lvl = rng.choice([None, "WARN", "WARN", "IGNORE", "RAISE", "IMMEDIATE"])
+            for d, q in rng.sample(corpus.SPECULATIVE, 3) + rng.sample(corpus.FAILING, 3) + rng.sample(stateful, 3):
+                members.append({"op": "parse", "sql": q, "read": rd if rng.random() < 0.7 else d, "error_level": lvl})
+        elif kind == "tokenize":
+            rd = rng.choice([None, "bigquery", "snowflake", "duckdb", "postgres", "mysql", "tsql"])
+            for d, q in rng.sample(stateful, 8):
+                members.append({"op": "tokenize", "sql": q, "read": rd})
+        else:
+            rd = rng.choice(["bigquery", "snowflake", "duckdb", "postgres", "spark", "mysql"])
+            w = rng.choice(hot_writes)
+            for d, q in rng.sample(stateful, 8):
+                members.append({"op": "transpile", "sql": q, "read": rd, "write": w})
+        groups.append(members)
+        calls.extend(members)
     _POOL[key] = calls
+    _GROUPS[key] = groups
     return calls
 
 
@@ -268,6 +301,8 @@ def generate(prop, run_seed, tier):
            "garbage": rng.choice([1000, 20000, 150000]) if "garbage" in faults else 0,
            "gc": "disabled" if ("gc" in faults and rng.random() < 0.3) else "default"}
     hot = [pool[rng.randrange(len(pool))] for _ in range(rng.randint(3, 12))]
+    groups = _GROUPS.get((common.env_seed(), tier)) or []
+    focus = groups[rng.randrange(len(groups))] if groups and rng.random() < 0.4 else None
     failing = [c for c in pool if c["op"] in ("parse", "tokenize") and (c["read"], c["sql"]) in [(d, s) for d, s in corpus.FAILING]]
     n = rng.randint(3, 30 if tier == "quick" else 60)
     reuse_p = rng.choice([0.0, 0.3, 0.6, 0.9])
@@ -290,6 +325,15 @@ def generate(prop, run_seed, tier):
             if base["op"] == "parse":
                 base.setdefault("error_level", rng.choice([None, "RAISE", "IMMEDIATE"]))
             c = base
+        elif focus is not None and rng.random() < 0.8:
+            c = dict(focus[rng.randrange(len(focus))])
+            c["comp"] = "reused:0"
+            if "stack_exhaustion" in faults and rng.random() < 0.06:
+                c["exhaust"] = rng.randrange(10, 120)
+            if "abort_generate" in faults and c["op"] == "generate" and rng.random() < 0.4:
+                c["abort_at"] = rng.randrange(1, 48)
+            steps.append(c)
+            continue
         else:
             c = dict(hot[rng.randrange(len(hot))] if rng.random() < 0.75 else pool[rng.randrange(len(pool))])
         if rng.random() < reuse_p:
@@ -299,7 +343,7 @@ def generate(prop, run_seed, tier):
         if "stack_exhaustion" in faults and rng.random() < 0.06:
             c["exhaust"] = rng.randrange(10, 120)
         if "abort_generate" in faults and c.get("op") == "generate" and c["comp"] != "fresh" and rng.random() < 0.35:
-            c["abort_at"] = rng.randrange(1, 40)
+            c["abort_at"] = rng.randrange(1, 48)
         steps.append(c)
     return {"engine": "histsim", "config": cfg, "steps": steps}
 
@@ -321,8 +365,7 @@ def execute(record, state):
     probes = {"reused_after_error": 0, "reused_steps": 0, "steps_sharing_dialect": 0, "commutative_inputs": 0, "ref_exception_steps": 0}
     r = tp.run(cfg.get("hashseed", 0), {"record": record, "cold_tables": cold_tables(tp)}, timeout=150)
     if r.get("timeout"):
-        v = {"oracle": "liveness", "cls": "timeout", "step": len(steps) - 1, "detail": "history did not finish within the wall limit (hang?)"}
-        return {"violation": v, "digest": "timeout", "sig": "timeout", "nontrivial": True, "steps": 0, "faults": faults, "probes": probes, "population": "faulted"}
+        return {"aborted": "wall-timeout"}  # load-dependent, never an oracle; discarded and counted by the driver
     if "outputs" not in r:
         raise common.HarnessError("child failed: %s" % json.dumps(r)[:500])
     outs = r["outputs"]
